@@ -103,26 +103,31 @@ structure StepResult where
   outcome : Outcome
   fetched : Bool
 
+/-- `put_license_in_file` after the `mkdir`: existence test, LicenseRef- branch, download
+    before the file is opened. -/
+def putAt (fetch : Text → Option Text) (fs1 : Fs) (src : Option Path) (id : Text)
+    (dest : Path) : StepResult :=
+  match fs1.get dest with
+  | some _ => ⟨fs1, .exists_, false⟩
+  | none =>
+    if isLicenseRef id then
+      match src with
+      | none => ⟨fs1.set dest (.file []), .ok, false⟩
+      | some s =>
+        match fs1.get (sourcePath fs1 s id) with
+        | some (.file b) => ⟨fs1.set dest (.file b), .ok, false⟩
+        | _ => ⟨fs1, .notFound, false⟩
+    else
+      match fetch id with
+      | none => ⟨fs1, .urlError, true⟩
+      | some t => ⟨fs1.set dest (.file t), .ok, true⟩
+
 /-- `put_license_in_file` together with the command's exception handlers. -/
 def putLicense (fetch : Text → Option Text) (fs : Fs) (src : Option Path) (id : Text)
     (dest : Path) : StepResult :=
   match mkdirParent fs dest with
   | .error e => ⟨fs, e, false⟩
-  | .ok fs1 =>
-    match fs1.get dest with
-    | some _ => ⟨fs1, .exists_, false⟩
-    | none =>
-      if isLicenseRef id then
-        match src with
-        | none => ⟨fs1.set dest (.file []), .ok, false⟩
-        | some s =>
-          match fs1.get (sourcePath fs1 s id) with
-          | some (.file b) => ⟨fs1.set dest (.file b), .ok, false⟩
-          | _ => ⟨fs1, .notFound, false⟩
-      else
-        match fetch id with
-        | none => ⟨fs1, .urlError, true⟩
-        | some t => ⟨fs1.set dest (.file t), .ok, true⟩
+  | .ok fs1 => putAt fetch fs1 src id dest
 
 structure Args where
   ids : List Text
